@@ -171,7 +171,7 @@ def World.power (w : World) (signers : List Nat) : Nat :=
 
 /-- `AggregateSignature.Check`'s partial test on the signers of a certificate (signatures themselves are valid: symbolic) -/
 def World.isPartial (w : World) (signers : List Nat) : Bool :=
-  Gen.Bft.isPartialQC (UInt64.ofNat (w.power signers)) (Gen.Bft.minimumMaj23 (UInt64.ofNat w.cfg.total))
+  Gen.Bft.isPartialQC (UInt64.ofNat (w.power signers)) (Gen.Bft.minimumMaj23 (UInt64.ofNat w.cfg.total)) (UInt64.ofNat w.cfg.total)
 
 /-- what `SafeNode` reads when a replica locked on `(lv, lph, lb)` examines a proposal for `b` justified by `hq` -/
 def safeNodeInput (lv : View) (lph lb b : Nat) (hq : Option CertD) : Gen.Bft.SafeNodeIn :=
